@@ -8,7 +8,7 @@ from .common import Spec, Claims
 PROPERTY = "C10"
 BOUNDS = ("start and step symbolic over [-2^40, 2^40] (covers 0, 1, 2^32-1, 2^32 and negatives); previous sequence numbers "
           "symbolic over 0..2^32-1 (0 = none); ACL shapes: every sequence of <=4 (quick) / <=6 (thorough) body lines over "
-          "{heading remark, plain remark, ACE} x group_by in {none, '= '} (all nestings group() can produce) + 9 mixed nestings built through the items setter (groups followed by plain items), both platforms; "
+          "{heading remark, plain remark, ACE} x group_by in {none, '= '} (all nestings group() can produce) + 14 shapes repeating the SAME entry/remark text (a repeated HEADING is C15's known finding and is left to C15) (old number of one copy may equal the new number of another) + 9 mixed nestings built through the items setter (groups followed by plain items), both platforms; "
           "address groups of 1..4 members on both platforms.")
 ASSUMPTIONS = ["ACE/remark bodies are fixed texts; only numbers are symbolic"]
 
@@ -16,7 +16,9 @@ SEQ_MAX = 4294967295
 LIM = 1 << 40
 
 KINDS = {"H": "remark = head{i}", "R": "remark note{i}", "A": "permit tcp any host 10.0.0.{i} eq {i}",
-         "D": "deny ip any any"}
+         "D": "deny ip any any", "Q": "remark same"}
+# the same entry text more than once (legal in a configuration): numbering goes by position, never by what a line says
+DUPS = ["DD", "DAD", "DDD", "ADD", "DADA", "QQ", "QAQ", "AQRQ", "HDD", "HDAD", "DHD", "HDHD", "HQAQ", "QHQ"]
 
 
 def _shapes(tier):
@@ -27,7 +29,7 @@ def _shapes(tier):
             if k >= 5 and combo.count("H") > 2:
                 continue
             out.append("".join(combo))
-    return out
+    return out + DUPS
 
 
 def _seq_of(line):
